@@ -24,6 +24,9 @@ func init() { evals["C12"] = evalC12 }
 
 func guardC12(p prog.Program) prog.Guard {
 	base := guardFor("C01", p)
+	if p.Cfg.Flags["undoable"] == 1 {
+		base = guardFor("C15", p) // undo / redo in the alphabet: the undo-related exclusions apply
+	}
 	return func(d *document.Document, s prog.Step) (prog.Step, string) {
 		if base != nil {
 			return base(d, s)
@@ -39,7 +42,7 @@ func evalC12(p prog.Program) Outcome {
 	psetSeen := map[int]bool{}
 	res := prog.Run(p, prog.RunOpts{
 		ProjTag: "c12",
-		Guard:   guardC12(p),
+		Guard:   guardC12(p), TolerateUndoError: p.Cfg.Flags["undoable"] == 1,
 		AttachOpts: func(i int) []interface{} {
 			var o []interface{}
 			if dpmask&(1<<uint(i%16)) != 0 {
@@ -190,8 +193,24 @@ func genC12() *rapid.Generator[prog.Program] {
 		})
 	}
 	a, b := mk(true), mk(false)
+	// undoable-presence stratum: updates that append to the array and set a
+	// presence key WithHistory in one change; peers delete array elements;
+	// undo / redo (the operation half of such an entry may have become a
+	// no-op, the presence half must still reach everybody). No client GC: the
+	// reverse Remove of a purged element is the known "GC vs undo" family.
+	hist := prog.Gen(prog.GenOpts{
+		MinClients: 2, MaxClients: 3, MaxSteps: pick(24, 40), MaxTail: 4,
+		EditOps:  []string{"pmixh", "pmixh", "pmixh", "adel", "adel", "adel", "aadd", "pset", "pclear", "cinc"},
+		SchedOps: []string{"undo", "undo", "undo", "redo", "redo", "attach", "round"}, SyncWeight: 6, OfflineBias: true,
+	})
 	return rapid.Custom(func(t *rapid.T) prog.Program {
 		var p prog.Program
+		if rapid.IntRange(0, 4).Draw(t, "undoable") == 0 {
+			p = hist.Draw(t, "p")
+			p.Cfg.ClientNoGC = true
+			p.Cfg.Flags = map[string]int{"dpmask": 0, "ipmask": rapid.IntRange(0, 255).Draw(t, "ipmask"), "undoable": 1}
+			return p
+		}
 		if rapid.IntRange(0, 1).Draw(t, "snap") == 0 {
 			p = a.Draw(t, "p")
 		} else {
